@@ -1,12 +1,17 @@
 package main
 
 import (
+	"encoding/json"
 	"os"
+	"os/exec"
 	"path/filepath"
+	"sort"
 	"strings"
 
 	"github.com/modernizing/coca/pkg/application/analysis/javaapp"
 	"github.com/modernizing/coca/pkg/application/api"
+	"github.com/modernizing/coca/pkg/application/bs"
+	"github.com/modernizing/coca/pkg/domain/bs_domain"
 	"github.com/modernizing/coca/pkg/domain/core_domain"
 )
 
@@ -63,5 +68,72 @@ func init() {
 			out = append(out, L(A(r.HttpMethod), A(r.Uri), A(r.PackageName), A(r.ClassName), A(r.MethodName), A(r.RequestBodyClass)))
 		}
 		return L(out...)
+	})
+}
+
+func init() {
+	// (((relpath text) ...) (ignored-kind ...)) -> (identified smells, `coca bs -s type` groups)
+	// refusedBequest and graphConnectedCall are outside C10 and dropped from both lists.
+	register("java.bs", func(in Sx) Sx {
+		dir := writeTree(in.Nth(0))
+		defer os.RemoveAll(dir)
+		ignore := in.Nth(1).StrList()
+		app := bs.NewBadSmellApp()
+		nodes := app.AnalysisPath(dir)
+		smells := app.IdentifyBadSmell(nodes, ignore)
+		keep := func(k string) bool { return k != "refusedBequest" && k != "graphConnectedCall" }
+		toSx := func(m bs_domain.BadSmellModel) Sx {
+			desc := m.Description
+			if m.Bs == "longParameterList" {
+				desc = ""
+			}
+			return L(A(strings.TrimPrefix(strings.TrimPrefix(m.File, dir), "/")), A(m.Line), A(m.Bs), A(desc), N(m.Size))
+		}
+		list := []Sx{}
+		for _, m := range smells {
+			if keep(m.Bs) {
+				list = append(list, toSx(m))
+			}
+		}
+		// the CLI path for -s type (isSmellHaveSize is private to cmd)
+		groups := L(A("!NOCLI"))
+		if bin := os.Getenv("COCA_BIN"); bin != "" {
+			wd, _ := os.MkdirTemp(os.Getenv("VERIF_SCRATCH"), "verif-bs-")
+			defer os.RemoveAll(wd)
+			args := []string{"bs", "-p", dir, "-s", "type"}
+			if len(ignore) > 0 {
+				args = append(args, "-x", strings.Join(ignore, ","))
+			}
+			cmd := exec.Command(bin, args...)
+			cmd.Dir = wd
+			if out, err := cmd.CombinedOutput(); err != nil {
+				groups = L(A("!CLI-ERROR"), A(panicClass(string(out))))
+			} else if data, err := os.ReadFile(filepath.Join(wd, "coca_reporter", "bs.json")); err != nil {
+				groups = L(A("!CLI-NO-OUTPUT"))
+			} else {
+				var m map[string][]bs_domain.BadSmellModel
+				if err := json.Unmarshal(data, &m); err != nil {
+					groups = L(A("!CLI-BAD-JSON"), A(string(data)))
+				} else {
+					keys := []string{}
+					for k := range m {
+						if keep(k) {
+							keys = append(keys, k)
+						}
+					}
+					sort.Strings(keys)
+					gs := []Sx{}
+					for _, k := range keys {
+						items := []Sx{}
+						for _, x := range m[k] {
+							items = append(items, toSx(x))
+						}
+						gs = append(gs, L(A(k), L(items...)))
+					}
+					groups = L(gs...)
+				}
+			}
+		}
+		return L(L(list...), groups)
 	})
 }
